@@ -36,6 +36,79 @@ def _lines(ctx, name):
     return l
 
 
+def _expand(tok):
+    m = re.match(r"r(\d+)\.(\d+)/(\d+)$", tok)
+    if not m:
+        return None
+    r, i, o = int(m.group(1)), int(m.group(2)), int(m.group(3))
+    return [(r, (i << o) + k) for k in range(1 << o)]
+
+
+def fmt_cross_check(ctx, cmd):
+    """Independent `required`: b-fmt's verified decoder (coq/Format, shares no code with redb) reads the SAME
+    bytes the crate opened; reachable pages + freed lists of the slot recovery trusts must equal the
+    allocator state the crate ended up with (H3 snapshot written by the harness next to the image)."""
+    import glob
+    import subprocess
+    from concurrent.futures import ThreadPoolExecutor
+    import vlib
+    out = {"images": 0, "compared": 0, "skipped": [], "unavailable": None}
+    files = sorted(glob.glob(os.path.join(ctx.workdir, "fmtimg-*.bin")))
+    out["images"] = len(files)
+    if not files:
+        return out
+    exe, log = vlib.ocaml_driver("fmt")
+    if exe is None:
+        out["unavailable"] = "fmt_driver did not build: %s" % (log or "")[-300:]
+        return out
+
+    def work(f):
+        b = os.path.basename(f)
+        p = subprocess.run([exe, "batch"], input="pages %s recover\nsystem %s recover\n" % (b, b), cwd=ctx.workdir,
+                           stdout=subprocess.PIPE, stderr=subprocess.PIPE, text=True, timeout=900)
+        return f, p.returncode, p.stdout, p.stderr
+
+    with ThreadPoolExecutor(max_workers=min(8, len(files))) as ex:
+        results = list(ex.map(work, files))
+    for f, rc, so, se in results:
+        side = open(f[:-4] + ".alloc").read().split("\n")
+        head = dict(kv.split("=", 1) for kv in side[0].split(" ") if "=" in kv)
+        allocated = set(tuple(map(int, l.split("."))) for l in side[1:] if l)
+        hist = os.path.basename(f).split("-")[1]
+        if rc != 0:
+            out["skipped"].append("%s: fmt_driver rc=%s %s" % (os.path.basename(f), rc, se[-200:]))
+            continue
+        chosen = re.search(r"chosen slot=\d+ txid=(\d+)", so)
+        if not chosen or chosen.group(1) != head.get("served_txid"):
+            out["skipped"].append("%s: decoder chose txid %s, crate served %s" % (os.path.basename(f), chosen.group(1) if chosen else None, head.get("served_txid")))
+            continue
+        required, dup = set(), None
+        for l in so.split("\n"):
+            toks = l.split(" ")
+            cand = []
+            if l.startswith("page ") and len(toks) > 2:
+                cand = [toks[2]]
+            elif l.startswith("freed "):
+                cand = [t for t in toks if re.match(r"r\d+\.\d+/\d+$", t)]
+            for t in cand:
+                for pg in _expand(t) or []:
+                    if pg in required and dup is None:
+                        dup = (t, pg)
+                    required.add(pg)
+        out["compared"] += 1
+        if required != allocated or dup:
+            leak = sorted(allocated - required)[:5]
+            missing = sorted(required - allocated)[:5]
+            ctx.violation("c11-allocated-not-required-decoder",
+                          "history %s: after %s (path %s) the allocator state differs from the pages the independent decoder finds required in the same bytes: "
+                          "%d allocated vs %d required; allocated but not required %s; required but not allocated %s%s"
+                          % (hist, head.get("stop"), head.get("path"), len(allocated), len(required), leak, missing,
+                             "; page listed twice by the decoder: %s" % (dup,) if dup else ""),
+                          {"history": int(hist), "reproduce": cmd.replace("<history>", hist), "image_file_in_workdir": os.path.basename(f),
+                           "stop": head.get("stop"), "path": head.get("path")})
+    return out
+
+
 def analyse(ctx, n, only=None):
     res = {"ok": False, "detail": None, "s2": [], "opens": 0, "nontrivial": 0, "stats": "", "samples": []}
     rc, out = ctx.harness("c11", [n] + consts(ctx) + ([only] if only is not None else []))
@@ -88,6 +161,7 @@ def analyse(ctx, n, only=None):
         ctx.violation(key, "history %s: %s" % (h, parts[0]),
                       {"history": int(h), "reproduce": cmd.replace("<history>", h), "finding": parts[0],
                        "history_steps": parts[1].split(" ; ") if len(parts) > 1 else []})
+    res["fmt"] = fmt_cross_check(ctx, cmd)
     res["ok"] = True
     return res
 
@@ -129,6 +203,7 @@ def run(ctx):
                 "(all / none / random half / header-only / data-only / prefix / all-but-one of the unsynced writes); each stop is followed by an open and the "
                 "C11 oracles; evaluations = opens; non-trivial = distinct history with at least one open that passed every oracle stage",
         "samples": r["samples"], "traces_validated_against_impl": r["opens"], "input_distribution": r["stats"],
+        "independent_decoder_cross_check": r.get("fmt"),
         "trusted_base": ["Coq 8.16.1 kernel + vm_compute", "tools/gen_consts.py (header offsets handed to the harness)",
                          "harness/src/bin/c11.rs + harness/src/rvdb.rs (generators, crash-image builder, independent header parse)",
                          "extraction (ExtrOcamlBasic only) + ocaml/c11_driver.ml",
